@@ -68,7 +68,10 @@ Fault(c) ==
   /\ nfaults' = nfaults + 1
   /\ UNCHANGED nops /\ Track
 
-AgeStep == WithAges /\ Age /\ h' = Append(h, Ev("Age", "-")) /\ UNCHANGED <<nops, nfaults>> /\ Track
+(* the retention age is 180 days: it does not pass while an add_snapshot (one put, made by the *)
+(* sync that has just added that version) is in flight                                      *)
+AgeStep == WithAges /\ Age /\ (\A c \in Clients : cl[c].pc # "as1")
+           /\ h' = Append(h, Ev("Age", "-")) /\ UNCHANGED <<nops, nfaults>> /\ Track
 
 MInit == Init /\ nops = [c \in Clients |-> 0] /\ nfaults = 0 /\ h = <<>> /\ everSnapOnChain = FALSE
 MNext == AgeStep \/ \E c \in Clients : Call(c) \/ Step(c) \/ StepDraw(c) \/ Fault(c)
